@@ -6,7 +6,7 @@
    every variant (the tree structure does not depend on the cut search).
    Rib = the same function applied to the rotated points recorded by the hook. *)
 From Coupe Require Import Lib.Prelude Lib.SFloat Model.Rcb Gen.RcbGen
-  Proofs.SFOrder Proofs.RcbProofs Proofs.RcbInst Proofs.RcbTotal Proofs.F32Rank Proofs.F32Flocq Proofs.RcbTotalInst.
+  Proofs.SFOrder Proofs.RcbProofs Proofs.RcbInst Proofs.RcbTotal Proofs.F32Rank Proofs.F32Flocq Proofs.RcbTotalInst Proofs.RcbSched Proofs.RcbSchedInst.
 From Coq Require Import Floats.SpecFloat Permutation.
 Open Scope Z_scope.
 
@@ -167,6 +167,45 @@ Proof.
   - apply andb_true_iff in H. destruct H as [A _]. apply Z.leb_le, A.
   - apply andb_true_iff in H. destruct H as [_ A]. apply Z.leb_le, A.
 Qed.
+
+(* Schedule independence (the Rcb part of C06; imported by the C06 collector):
+   for the current search variant, exact integer weights and ANY two schedules
+   (one rayon split tree per fold, indexed by node and loop iteration) the two
+   runs return the same result: the same id for every point (or the same
+   error / OutOfFuel).  Proof: rcb_rec is invariant under permutation of its
+   item list and under the choice of trees (rcb_rec_perm); the stores go to
+   pairwise distinct cells.  Rib = the same function on the rotated points. *)
+Theorem C03_rcb_sched_indep : forall fuel s1 s2 D k tol pts ws p0,
+  coords_ok pts ->
+  rcb_impl fuel s1 D k tol pts ws p0 = rcb_impl fuel s2 D k tol pts ws p0.
+Proof. exact (fun fuel s1 s2 D k tol pts ws p0 => rcb_sched_indep rcb_variant fuel s1 s2 D k tol pts ws p0 eq_refl eq_refl). Qed.
+Print Assumptions C03_rcb_sched_indep.
+
+(* generic form: any coordinate type whose `<` is a strict weak order on the
+   valid values and whose `<=` respects the induced equivalence *)
+Theorem C03_rcb_sched_indep_generic :
+  forall (C : Type) (ltb leb : C -> C -> bool) (mid dist addc : C -> C -> C) (zero inf : C)
+    (within_tol : Z -> Z -> bool) (probe_max : bool) (valid : C -> bool),
+  (forall x, valid x = true -> ltb x x = false) ->
+  (forall x y z, valid x = true -> valid y = true -> valid z = true -> ltb x y = true -> ltb x z = true \/ ltb z y = true) ->
+  (forall x y z, valid x = true -> valid y = true -> valid z = true -> ltb x y = true -> ltb y z = true -> ltb x z = true) ->
+  (forall x y, valid x = true -> valid y = true -> leb x y = negb (ltb y x)) ->
+  valid inf = true ->
+  (forall m a b, valid a = true -> valid b = true -> ltb a b = false -> ltb b a = false -> leb m a = leb m b) ->
+  forall fuel s1 s2 D k (its : list (item C)) sum bb p0,
+  Forall (vitem C valid) its -> NoDup (map ix its) ->
+  rcb_core C ltb leb mid dist addc zero inf within_tol false true probe_max fuel s1 D k its sum bb p0
+  = rcb_core C ltb leb mid dist addc zero inf within_tol false true probe_max fuel s2 D k its sum bb p0.
+Proof. exact rcb_core_sched_indep. Qed.
+Print Assumptions C03_rcb_sched_indep_generic.
+
+(* two different schedules on the doc example *)
+Example C03_sched_indep_nonvacuous :
+  rcb_impl 400 (fun _ _ => SNode 2 (SNode 1 SLeaf SLeaf) SLeaf) 2 2 (f64_of_bits 4587366580439587226%N)
+           (map (map f64_of_Z) [[1; 1]; [-1; 1]; [1; -1]; [-1; -1]]) [1; 1; 1; 1] [9; 9; 9; 9]%N
+  = rcb_impl 400 seq_sched 2 2 (f64_of_bits 4587366580439587226%N)
+           (map (map f64_of_Z) [[1; 1]; [-1; 1]; [1; -1]; [-1; -1]]) [1; 1; 1; 1] [9; 9; 9; 9]%N.
+Proof. vm_compute. reflexivity. Qed.
 
 (* non-vacuity: the doc example of Rcb (4 points, 2 iterations) runs to Ok in
    the model with 4 distinct parts, and the checker accepts it *)
